@@ -39,6 +39,54 @@ CORPUS = [
     ('longcmp', 'f', 'int f(unsigned long a, long b, unsigned c) { return (a > (unsigned long)b) + (b < c) * 2 + (a >> 63) * 4 + ((long)a < b) * 8; }',
      [('unsigned long', 'a'), ('long', 'b'), ('unsigned', 'c')], 'int', ''),
 ]
+# nested control-dependent expressions (phi sources must be the blocks that actually precede the join)
+CORPUS += [
+    ('nestedcond', 'f', 'int f(int a, int b, int c) { return a ? (b ? 1 : 2) : c; }', [('int', 'a'), ('int', 'b'), ('int', 'c')], 'int', ''),
+    ('nestedcond-logic', 'f', 'int f(int a, int b, int c) { return a ? b && c : 7; }', [('int', 'a'), ('int', 'b'), ('int', 'c')], 'int', ''),
+    ('nestedcond-both', 'f', 'long f(int a, long b, int c) { return a ? (b || c ? b : c) : (c && b ? 3 : b); }', [('int', 'a'), ('long', 'b'), ('int', 'c')], 'long', ''),
+    ('cond-in-logic', 'f', 'int f(int a, int b, int c) { return ((a ? b : c) && (b ? c : a)) || !(c ? a : b); }', [('int', 'a'), ('int', 'b'), ('int', 'c')], 'int', ''),
+    ('cond-lvalue-ptr', 'f', 'int f(int a, int *p) { *(a ? &p[0] : &p[1]) = a ? (a > 5 ? 3 : 4) : 9; return p[0] * 16 + p[1]; }', [('int', 'a'), ('int *', 'p', 2)], 'int',
+     'i_p[0] > -100 && i_p[0] < 100 && i_p[1] > -100 && i_p[1] < 100'),
+]
+# calls: (name, function, source, params, return type, precondition, prototypes seen by cproc, callee specifications for the harness)
+CORPUS_CALLS = [
+    ('call-basic', 'f', 'long f(int a, unsigned char b) { long r = g(a + 1, b); r += g(b, a); return r * 2; }', [('int', 'a'), ('unsigned char', 'b')], 'long',
+     'in_a > -100000 && in_a < 100000', 'long g(int, long);', [dict(name='g', ret='long', params=['int', 'long'])]),
+    ('call-conv', 'f', 'int f(long a, double d) { return h(a, d, a); }', [('long', 'a'), ('double', 'd')], 'int', 'in_d == in_d && in_d > -1e6 && in_d < 1e6',
+     'int h(short, float, unsigned char);', [dict(name='h', ret='int', params=['short', 'float', 'unsigned char'])]),
+    ('call-fptr', 'f', 'int f(int (*fp)(int, long), int a) { return fp(a, a) + (*fp)(1, 2); }', [('int (*)(int, long)', 'fp', 'FN', 'g'), ('int', 'a')], 'int', '',
+     '', [dict(name='g', ret='int', params=['int', 'long'])]),
+    ('call-variadic', 'f', 'int f(int a, long b, double d) { return v(2, a, b, d); }', [('int', 'a'), ('long', 'b'), ('double', 'd')], 'int', 'in_d == in_d',
+     'int v(int, ...);', [dict(name='v', ret='int', params=['int'], extra=['int', 'long', 'double'])]),
+    ('call-void-ptr', 'f', 'int f(int *p, int a) { set(p + 1, a); set(p, p[1] + 1); return p[0]; }', [('int *', 'p', 2), ('int', 'a')], 'int', 'in_a > -100000 && in_a < 100000',
+     'void set(int *, int);', [dict(name='set', ret='void', params=['int *', 'int'], body='*a0 = a1;')]),
+    ('call-cond', 'f', 'int f(int a) { return a > 0 ? g(a, 1) : a < -5 ? g(2, a) : 0; }', [('int', 'a')], 'int', '',
+     'int g(int, long);', [dict(name='g', ret='int', params=['int', 'long'])]),
+    ('call-result-conv', 'f', 'double f(int a) { unsigned char c = k(a); float x = k(a + 1); return c + x; }', [('int', 'a')], 'double', 'in_a > -100000 && in_a < 100000',
+     'long k(int);', [dict(name='k', ret='long', params=['int'])]),
+    ('call-nested', 'f', 'int f(int a) { return g(g(a, 1) + 1, a); }', [('int', 'a')], 'int', '',
+     'int g(int, long);', [dict(name='g', ret='int', params=['int', 'long'])]),
+]
+# automatic objects initialised through the real parseinit + funcinit; values symbolic (function parameters), members read back one by one
+AUTOINIT_PRELUDE = 'struct in { char b; short c[2]; }; struct t { int a; struct in s; int d; unsigned f : 5; int g : 7; }; union u { short h; int i; long l; };\n'
+CORPUS_AUTOINIT = [
+    ('autoinit-elide', 'f', 'void f(long *o, int v1, int v2, int v3, int v4) { struct t x = {v1, v2, v3, v4}; o[0] = x.a; o[1] = x.s.b; o[2] = x.s.c[0]; o[3] = x.s.c[1]; o[4] = x.d; o[5] = x.f; o[6] = x.g; }',
+     [('long *', 'o', 7), ('int', 'v1'), ('int', 'v2'), ('int', 'v3'), ('int', 'v4')], 'void', ''),
+    ('autoinit-desig', 'f', 'void f(long *o, int v1, int v2, int v3) { struct t x = {.s = {.b = v2}, .s.c[1] = v1, .f = v2, .a = v3}; o[0] = x.a; o[1] = x.s.b; o[2] = x.s.c[0]; o[3] = x.s.c[1]; o[4] = x.d; o[5] = x.f; o[6] = x.g; }',
+     [('long *', 'o', 7), ('int', 'v1'), ('int', 'v2'), ('int', 'v3')], 'void', ''),
+    ('autoinit-bitfields', 'f', 'void f(long *o, int v1, int v2) { struct t x = {.g = v1, .f = v2}; o[0] = x.a; o[1] = x.d; o[2] = x.f; o[3] = x.g; o[4] = x.s.b; }',
+     [('long *', 'o', 5), ('int', 'v1'), ('int', 'v2')], 'void', ''),
+    ('autoinit-union', 'f', 'void f(long *o, int v1, int v2) { union u x = {.i = v1}; union u y = {v1}; union u z = {.l = v2}; o[0] = x.i; o[1] = y.h; o[2] = z.i; }',
+     [('long *', 'o', 3), ('int', 'v1'), ('int', 'v2')], 'void', ''),
+    ('autoinit-array', 'f', 'void f(long *o, int v1, int v2, int v3) { int x[] = {v1, [3] = v2, v3}; short y[2][2] = {{v1}, v2, v3}; o[0] = x[0] + x[1] + x[2]; o[1] = x[3]; o[2] = x[4]; o[3] = sizeof x; o[4] = y[0][0] * 3 + y[0][1]; o[5] = y[1][0]; o[6] = y[1][1]; }',
+     [('long *', 'o', 7), ('int', 'v1'), ('int', 'v2'), ('int', 'v3')], 'void', 'in_v1 > -10000 && in_v1 < 10000'),
+    ('autoinit-string', 'f', 'void f(long *o, int v1) { char s[8] = "ab"; struct { char t[4]; int n; } x = {.t = "wxyz", .n = v1}; struct { int k; char t[6]; } y = {v1, "hi"}; o[0] = s[0] + s[1] * 256 + s[2] + s[7]; o[1] = x.t[0]; o[2] = x.t[1]; o[3] = x.t[3]; o[4] = x.n; o[5] = y.t[1] + y.t[2] + y.t[5]; }',
+     [('long *', 'o', 6), ('int', 'v1')], 'void', ''),
+    ('autoinit-string-override', 'f', 'void f(long *o, int v1) { struct { char t[4]; int n; } x = {.t = "wxyz", .t[1] = v1, .n = v1}; o[0] = x.t[0]; o[1] = x.t[1]; o[2] = x.t[2]; o[3] = x.t[3]; o[4] = x.n; }',
+     [('long *', 'o', 5), ('int', 'v1')], 'void', ''),
+    ('autoinit-structcopy', 'f', 'void f(long *o, struct t *p, int v1) { struct { struct t k; int z; } x = {*p, v1}; struct t y = {.s = p->s, .a = v1}; o[0] = x.k.a; o[1] = x.k.s.c[1]; o[2] = x.z; o[3] = y.a; o[4] = y.s.b; o[5] = y.d; o[6] = x.k.g; }',
+     [('long *', 'o', 7), ('struct t *', 'p', 1), ('int', 'v1')], 'void', ''),
+]
 STRUCT_PRELUDE = 'struct s { char c; int x : 5; unsigned y : 11; long l; };\n'
 CORPUS_STRUCT = [
     ('bitfield', 'f', 'int f(struct s *p, int a, unsigned char b) { p->x = a; p->y += b; p->c = (char)(p->x + 1); return p->x * 3 + (p->y >> 2) + (int)p->l; }',
@@ -54,6 +102,11 @@ def corpus_instances(tier, fam='tv'):
     for nm, fn, src, params, ret, pre in CORPUS:
         opt = nm in heavy and tier == 'quick'
         L.append(tvlib.tv_inst('%s.%s' % (fam, nm), fn, src, params, ret, fam, pre=pre, timeout=(120 if opt else 600) if tier == 'quick' else 3600, optional=nm in heavy))
+    for nm, fn, src, params, ret, pre, protos, callees in CORPUS_CALLS:
+        prelude, disp = tvlib.callee_code(callees)
+        L.append(tvlib.tv_inst('%s.%s' % (fam, nm), fn, src, params, ret, fam, pre=pre, callees=disp, prelude=prelude, toksrc=protos + '\n' + src, timeout=600 if tier == 'quick' else 3600))
+    for nm, fn, src, params, ret, pre in CORPUS_AUTOINIT:
+        L.append(tvlib.tv_inst('%s.%s' % (fam, nm), fn, AUTOINIT_PRELUDE + src, params, ret, fam, pre=pre, timeout=600 if tier == 'quick' else 3600))
     for nm, fn, src, params, ret, pre in CORPUS_STRUCT:
         L.append(tvlib.tv_inst('%s.%s' % (fam, nm), fn, STRUCT_PRELUDE + src, params, ret, fam, pre=pre, timeout=600 if tier == 'quick' else 3600))
     return L
